@@ -87,6 +87,29 @@ def build_device(spec, mesh=True):
     return device
 
 
+def gen_corbino(rng, size="small", gamma=None):
+    """Corbino-like disk: circular film with a central hole; terminal `source` covers the whole rim of
+    the HOLE, terminal `drain` a stretch of the outer rim."""
+    layer = gen_layer(rng, gamma=gamma)
+    xi_ = layer["xi"]
+    tgt = {"tiny": (3.0, 1.0), "small": (5.0, 0.9), "medium": (8.0, 0.8)}[size]
+    R = _r(rng, 0.9, 1.2) * tgt[0] * xi_ / 2
+    r = _r(rng, 0.3, 0.4) * R
+    mel = tgt[1] * xi_ * _r(rng, 0.85, 1.1)
+    n_out = int(2 * math.pi * R / mel) + 10
+    n_in = max(10, int(2 * math.pi * r / mel) + 6)
+    cx, cy = _r(rng, -0.05, 0.05) * R, _r(rng, -0.05, 0.05) * R
+    spec = {"layer": layer, "length_units": "um", "probes": None,
+            "film": {"kind": "circle", "r": R, "points": n_out},
+            "holes": [{"kind": "circle", "r": r, "center": [cx, cy], "points": n_in, "name": "hole0"}],
+            "terminals": [
+                {"kind": "circle", "r": 1.08 * r, "center": [cx, cy], "points": 4 * n_in, "name": "source", "w": 2 * r, "h": 2 * r},
+                {"kind": "box", "w": 0.5 * R, "h": 1.1 * R, "center": [R, 0.0], "points": 12, "name": "drain"},
+            ],
+            "mesh": {"max_edge_length": mel, "min_points": None, "smooth": 0}}
+    return spec
+
+
 def scale_device_spec(spec, f, length_units):
     """Same physical device in other length units: every length multiplied by f."""
     import copy
